@@ -80,13 +80,15 @@ func (rt *roundTypes) value(c *Call) any {
 	return v.Addr().Interface()
 }
 
-// execStruct writes a value of a round type; the options (in particular OmitEmpty) are fixed per type
-// so that the known cache-order finding (C07-struct-cache-omitempty) is not what is being looked at.
+// exec writes a value of a round type. OmitEmpty varies from call to call (with the call's Val): which
+// goroutine caches which plan of the outer and the nested type first must not show in the text (the
+// "run alone" clause; it did until fix 8169704, finding C07-struct-cache-omitempty). UseTags and Indent
+// are fixed per type.
 func (rt *roundTypes) exec(c *Call) (o Outcome) {
 	opt := ojg.DefaultOptions
 	opt.Sort = true
 	ti := c.Path % len(rt.outer)
-	opt.OmitEmpty = ti%2 == 1
+	opt.OmitEmpty = c.Val%2 == 1
 	opt.UseTags = ti%3 == 0
 	opt.Indent = (ti % 2) * 2
 	var pan any
